@@ -1394,17 +1394,18 @@ func list_index(_ *Thread, b *Builtin, args Tuple, kwargs []Tuple) (Value, error
 // https://github.com/google/starlark-go/blob/master/doc/spec.md#list·insert
 func list_insert(_ *Thread, b *Builtin, args Tuple, kwargs []Tuple) (Value, error) {
 	recv := b.Receiver().(*List)
-	var index int
+	var index_ Int
 	var object Value
-	if err := unpackPositionalArgsNoEscape(b.Name(), args, kwargs, 2, &index, &object); err != nil {
+	if err := unpackPositionalArgsNoEscape(b.Name(), args, kwargs, 2, &index_, &object); err != nil {
 		return nil, err
 	}
 	if err := recv.checkMutable("insert into"); err != nil {
 		return nil, nameErr(b, err)
 	}
 
-	if index < 0 {
-		index += recv.Len()
+	var index int
+	if err := asIndex(index_, recv.Len(), &index); err != nil { // adds len to a negative index
+		return nil, nameErr(b, err)
 	}
 
 	if index >= recv.Len() {
